@@ -134,6 +134,8 @@ def bound_value(b, lay):
 
 
 def omp_mode(inst):
+    if "mode" in inst:
+        return inst["mode"]
     o = inst["omp"]
     return False if o is None else {"pardo": True, "region": "region", "reprod": "reprod"}[o["form"]]
 
@@ -401,6 +403,7 @@ def coq_case(inst, case, got_f, got_red):
 # ------------------------------------------------------------------------------------------------
 def jsonable_case(inst, doc, case):
     return {"builtin": inst["name"], "distributed_memory": inst["dm"], "compute_annexed_dofs": inst["ann"],
+            "openmp_mode": omp_mode(inst),
             "openmp": inst["omp"], "generated_loop_body": inst.get("body_text"),
             "generated_bounds": [inst["lo"], inst["hi"]], "zeroed_before_loop": inst["zero"], "global_sum": inst["gsum"],
             "documented": {"args": doc["raw_args"], "formula": doc["formula_lines"], "guide_line": doc["line"]},
@@ -420,7 +423,8 @@ REPLAY_HOW = ("write an algorithm file with `call invoke(<builtin>(<one variable
 
 def run(ctx):
     ctx.cov["rule"] = ("every class in BUILTIN_MAP x {DM off/on} x {COMPUTE_ANNEXED_DOFS off/on} x {serial, OMP PARALLEL DO, OMP PARALLEL + OMP DO} "
-                       "and every reduction built-in additionally with run-reproducible OpenMP reductions (1-3 simulated threads); "
+                       "and every reduction built-in additionally with run-reproducible OpenMP reductions (1-3 simulated threads) and with the omp_schedule grid "
+                       "{none, dynamic, guided, auto, static,4} x {PARALLEL DO, PARALLEL + DO, reprod} (a missing reduction clause is evaluated as a race: last writer wins); "
                        "per instance random exact inputs: undf 0..7, owned<=annexed<=undf, integer field values -4..4 (non-zero when the "
                        "formula divides or raises to a power), argument aliasing with probability 1/4, non-zero initial reduction variable, "
                        "random OpenMP permutation / chunking; non-trivial = documented range non-empty; distinct = (instance, input)")
@@ -482,7 +486,7 @@ def run(ctx):
     names_without_doc = [n for n, _, _ in table if n not in doc]
     xr = ctx.rng("xpick")
     xpick = {n: xr.sample(T.SETTINGS, 2) for n, _, _ in table}
-    for (name, dm, ann, omp), inst in sorted(insts.items(), key=lambda kv: (kv[0][0], kv[0][1], kv[0][2], T.OMP_CODE[kv[0][3]])):
+    for (name, dm, ann, omp), inst in sorted(insts.items(), key=lambda kv: (kv[0][0], kv[0][1], kv[0][2], T.omp_code(kv[0][3]))):
         if "rejected" in inst or name not in doc:
             continue
         d = doc[name]
@@ -512,7 +516,8 @@ def run(ctx):
                     failures.append((inst, d, None, r))
         # one case per chosen instance goes to the Coq model (interpreter / emitter cross-check);
         # quick tier: two of the eight settings of every built-in (seeded), thorough: all
-        if not ctx.thorough and omp != "reprod" and (dm, ann, omp) not in xpick[name]:
+        if not ctx.thorough and omp != "reprod" and (dm, ann, omp) not in xpick[name] \
+                and not (T.omp_sched(omp) == "none" and not dm):
             continue
         case = gen_case(rng, inst, d)
         try:
@@ -523,11 +528,11 @@ def run(ctx):
             if inst["kern"][0] == "reduce" and inst["omp"] is not None and not inst["omp"]["reduction"]:
                 raise Fault("racy")
             xcases.append(coq_case(inst, case, gf, gr))
-            xmeta.append((name, tag, case))
+            xmeta.append((name, tag, case, (name, dm, ann, omp)))
         except Fault:
             pass
     if res["instances"]:
-        skey = lambda k: (k[0], k[1], k[2], T.OMP_CODE[k[3]])                                    # noqa: E731
+        skey = lambda k: (k[0], k[1], k[2], T.omp_code(k[3]))                                    # noqa: E731
         k0 = sorted((k for k, v in insts.items() if "rejected" not in v and k[0] in doc), key=skey)[0]
         ctx.sample(jsonable_case(insts[k0], doc[k0[0]], gen_case(ctx.rng("sample"), insts[k0], doc[k0[0]], targeted=3)))
         kr = sorted((k for k, v in insts.items() if "rejected" not in v and k[0] in doc and v["kern"][0] == "reduce_local" and k[1]), key=skey)
@@ -571,7 +576,7 @@ def run(ctx):
         if xfail:
             i = xfail[0]
             ctx.violation({"property": "C20", "broken": "check interpreter and Coq model disagree on a generated instance (harness glue)",
-                           "instance": xmeta[i][:2], "case": jsonable_case(insts[(xmeta[i][0],) + untag(xmeta[i][1])], doc[xmeta[i][0]], xmeta[i][2]),
+                           "instance": xmeta[i][:2], "case": jsonable_case(insts[xmeta[i][3]], doc[xmeta[i][0]], xmeta[i][2]),
                            "n_differing": len(xfail)}, no_input=True)
         if not ok:
             ctx.violation({"property": "C20", "broken": "proof obligations of Properties/C20.v (generated obligations no longer re-prove)",
@@ -638,7 +643,8 @@ def replay(ctx, path):
         return 1
     o = inp["openmp"]
     key = (inp["builtin"], inp["distributed_memory"], inp["compute_annexed_dofs"],
-           False if o is None else {"pardo": True, "region": "region", "reprod": "reprod"}[o["form"]])
+           inp["openmp_mode"] if "openmp_mode" in inp else
+           (False if o is None else {"pardo": True, "region": "region", "reprod": "reprod"}[o["form"]]))
     inst = res["instances"][key]
     d = {e["name"]: e for e in res["doc"]}[inp["builtin"]]
     sched = inp["schedule"]
